@@ -143,6 +143,9 @@ pub enum Attrs {
     Full,
     /// generate_crcs(true) and then attributes_option(None): order-dependent configuration
     CrcsThenNone,
+    /// attributes_option(GenerateFull) and then generate_crcs(false): CRC32+MD5 attributes without sector
+    /// checksums (the attribute digests are the only protection of the file data)
+    FullThenNoCrcs,
 }
 
 #[derive(Clone, Debug, PartialEq, Eq, Serialize, Deserialize)]
@@ -174,13 +177,14 @@ impl ArchiveSpec {
         match self.attrs {
             Attrs::Crc32 | Attrs::Full => true,
             Attrs::CrcsThenNone => true,
+            Attrs::FullThenNoCrcs => false,
             Attrs::None => self.crcs,
         }
     }
     /// does the archive get an (attributes) file?
     pub fn has_attributes(&self) -> bool {
         match self.attrs {
-            Attrs::Crc32 | Attrs::Full => true,
+            Attrs::Crc32 | Attrs::Full | Attrs::FullThenNoCrcs => true,
             Attrs::CrcsThenNone => false,
             // generate_crcs(true) alone switches attributes to Crc32
             Attrs::None => self.crcs,
@@ -214,6 +218,9 @@ impl ArchiveSpec {
             }
             Attrs::CrcsThenNone => {
                 b = b.generate_crcs(true).attributes_option(AttributesOption::None);
+            }
+            Attrs::FullThenNoCrcs => {
+                b = b.attributes_option(AttributesOption::GenerateFull).generate_crcs(false);
             }
         }
         let s = self.sector();
@@ -481,6 +488,7 @@ pub fn archive_strategy(p: GenParams) -> impl Strategy<Value = ArchiveSpec> {
             2 => Just(Attrs::Crc32),
             2 => Just(Attrs::Full),
             1 => Just(Attrs::CrcsThenNone),
+            1 => Just(Attrs::FullThenNoCrcs),
         ]
         .boxed()
     } else {
